@@ -1,17 +1,36 @@
 /-
   C10 — a client call only ever receives the response to its own request.
 
-  System: `Kmip.CliConn.sys current` (model of kmipclient/conn.go + client.go as they are now): any number
-  of serialised callers, a server that answers after any delay or never, I/O faults at any point,
-  cancellation of the caller's context at any step, `Close()` concurrent with everything. Messages are
-  coloured *cur* / *stale* (see the header of `Model/CliConn.lean` for the abstraction and why it is
-  sound). The theorems are consequences of a kernel-checked inductive invariant (the certificate
-  `Gen.CertCliConn.certCurrent`, 15 778 states, closed under `step`), so they hold for runs of any length
-  and every interleaving of the modelled steps.
+  System: `Kmip.CliConn.sys current` (model of kmipclient/conn.go + client.go as they are now): a caller holding
+  the client mutex, a server that answers after any delay or never, I/O faults at any point, cancellation of
+  the caller's context at any step, `Close()` concurrent with everything. The theorems are consequences of a
+  kernel-checked inductive invariant (the certificate `Gen.CertCliConn.certCurrent`, closed under `step`), so
+  they hold for runs of any length and every interleaving of the modelled steps.
 
+  WHAT IS PROVED, AND WHAT IS NOT.
+  * Proved (kernel): in the modelled, COLOURED state machine no `stale` token is ever handed to a caller
+    (`no_stale_delivery`), no request is ever handed to the writer of a connection on which an exchange has
+    been abandoned (`abandoned_conn_not_reused`), the one-stale-token bound is never reached
+    (`one_stale_token_suffices`), and the colours are used as the header of `Model/CliConn.lean` says
+    (`colour_discipline`: a `cur` token exists only while the caller is inside its exchange, after the hand-off
+    to the writer and before it leaves `send`/`recv`; there is at most one; `stale` tokens live only on a
+    connection marked tainted; the error channel is used only in `send`'s inner select).
+  * NOT proved: that a system with explicit request identities refines the coloured one ("a run in which a
+    call gets a foreign response maps to a run in which `K` receives a `stale` token"). That step is an
+    argument (data independence + caller symmetry + `colour_discipline`), not a Lean theorem; on the real code
+    it is what the echo-identifier oracle of the `lts.cli` engine observes.
+  * NOT modelled as an object: the client mutex. There is one caller process `K`; a new call starts only when
+    `K` is idle, i.e. `kp ≠ idle` IS "the mutex is held", and callers waiting for it have no state. That
+    `doRountrip` really holds `c.lock` across `send`+`recv` is observed by the engine (concurrent followers, a
+    caller that gives up while queued for the client), not proved: a change that narrows the critical
+    section cannot falsify a theorem of this file.
+  * The fusion of no-op steps (`norm`) is part of the system the certificate is about; it is not proved sound
+    in Lean but checked by evaluation on every run (`lts.unfused`: the unfused system is explored, the same
+    predicates are evaluated on all its states, and `norm` maps every one of them into the certificate).
+  * One concurrent `Close()`; the server sends at most one response per request, in order.
   What is proved is a property of the modelled state machine under the encoded semantics of channels,
-  `select`, contexts and atomics. That the real code behaves like the model (Go scheduler, net.Conn) is
-  what the `lts.cli` engine of the harness observes.
+  `select`, contexts and atomics. That the real code behaves like the model (Go scheduler, net.Conn) is what
+  the `lts.cli` engine of the harness observes.
 
 -/
 import KmipModel.Lemmas.CliCert
@@ -29,16 +48,43 @@ theorem cliconn_safe : safeOn codec (bad current) certCurrent := CliCert.current
     `stale`, set by exactly the `rx` hand-off of a stale token (`delivery_of_stale_is_flagged`), is
     never set. -/
 theorem no_stale_delivery {s : St} (h : Reachable (sys current) s) : s.stale = false :=
-  (CliCert.bad_false (CliCert.current_inv h)).1
+  (CliCert.current_good h).stale
 
 /-- 2. A connection on which an exchange has been abandoned after its request was handed to the writer
     never carries a later exchange: no request is handed to the writer of a tainted connection. -/
 theorem abandoned_conn_not_reused {s : St} (h : Reachable (sys current) s) : s.reused = false :=
-  (CliCert.bad_false (CliCert.current_inv h)).2.1
+  (CliCert.current_good h).reuse
 
 /-- 3. The bound "one stale token per connection" of the model is never exceeded (it loses nothing). -/
 theorem one_stale_token_suffices {s : St} (h : Reachable (sys current) s) : s.overflow = false :=
-  (CliCert.bad_false (CliCert.current_inv h)).2.2.1
+  (CliCert.current_good h).overflow
+
+/-- 4. The colours mean what the model's header says. In every reachable state: a `cur` token (held by the
+    writer, pending at the server, in flight, held by the reader) exists only while the caller is inside the
+    exchange it has started on this connection; there is at most one; a `stale` token exists only on a
+    connection marked tainted; the per-message error channel is non-empty only while the caller waits on it. -/
+theorem colour_discipline {s : St} (h : Reachable (sys current) s) :
+    (hasCur s = true → inExchange s = true) ∧ curCount s ≤ 1 ∧ (hasStale s = true → s.tainted = true) ∧
+    (s.errCh ≠ 0 → s.kp = .k4) := by
+  have hc := (CliCert.current_good h).colour
+  simp only [badColour, Bool.or_eq_false_iff, Bool.and_eq_false_iff, Bool.not_eq_false', bne_eq_false_iff_eq,
+    Nat.blt_eq] at hc
+  obtain ⟨⟨⟨h1, h2⟩, h3⟩, h4⟩ := hc
+  refine ⟨fun hh => ?_, ?_, fun hh => ?_, fun hh => ?_⟩
+  · rcases h1 with h1 | h1
+    · rw [hh] at h1; cases h1
+    · exact h1
+  · have : ¬ 1 < curCount s := by
+      intro hlt
+      rw [← Nat.blt_eq, h2] at hlt
+      cases hlt
+    omega
+  · rcases h3 with h3 | h3
+    · rw [hh] at h3; cases h3
+    · exact h3
+  · rcases h4 with h4 | h4
+    · exact absurd h4 hh
+    · exact h4
 
 /-! ### the ghosts mean what they say -/
 
@@ -55,6 +101,17 @@ theorem reuse_is_flagged (p : Params) (s : St) (hk : s.kp = .k3o) (hw : s.wp = .
   refine ⟨{ s with wp := .w1c, kp := .k4, errCh := 0, ntx := min 5 (s.ntx + 1),
                    reused := s.reused || s.tainted }, ?_, by simp [ht], rfl⟩
   simp [stepK, hk, hw]
+
+/-- a token recoloured by `abandon` is no longer `cur`: after the caller has left its exchange nothing on the
+    connection is attributed to it (this is the step at which identities are forgotten). -/
+theorem abandon_leaves_no_cur (s : St) : hasCur (abandon s) = false := by
+  have hw : ∀ w : WP, wHasCur (wRecol w) = false := by intro w; cases w <;> rfl
+  have hq : ∀ q : Q, qHasCur (qRecol q) = false := by
+    intro q
+    unfold qRecol qHasCur
+    split <;> simp_all
+  have hr : ∀ r : RP, (rRecol r == .r2c) = false := by intro r; cases r <;> rfl
+  simp [hasCur, abandon, hw, hq, hr]
 
 /-! ### non-vacuity: calls do complete, and stale tokens do exist -/
 
